@@ -266,5 +266,144 @@ theorem hide_step (content : Id → Int → Int → Cell) (screen : Int → Int 
         · simp only [hfc, if_false] at h
           exact finish t1 p hsb1 hroot1 hp h
 
+/-! ### `tickit_window_show` -/
+
+/-- The common finish: the tree `t2` differs from `t` only in the visibility of `id`, and the expose that follows
+    reports every cell under `id`. -/
+theorem vis_expose_finish (content : Id → Int → Int → Cell) (screen : Int → Int → Cell) (t t2 t' : Tree) (id target : Id)
+    (e : Option Rect) (hsb2 : SameBut t t2 id) (hroot2 : t2.root = t.root)
+    (hex : expose t2 (t.wins.size + 1) target e = .ok t')
+    (hwf : WFp t) (hr : RootWin t) (hne : ∀ x ∈ t.root.damage, x.Nonempty) (hpos : RootsPositive t)
+    (hinv : InvC content t screen)
+    (hregion : WFp t2 → RootWin t2 → ∀ L C, UnderRoot t2 id L C → ExposedRegion t2 (t.wins.size + 1) target e L C) :
+    InvC content t' screen ∧ WFp t' ∧ RootWin t' ∧ (∀ x ∈ t'.root.damage, x.Nonempty) ∧ RootsPositive t' ∧
+    t'.wins.size = t.wins.size ∧
+    (t'.root = t.root ∨ (t'.root.needsExpose = true ∧ t'.root.needsLater = true ∧ t'.root.changes = t.root.changes)) ∧
+    (∃ t1, SameBut t t1 id ∧ t'.wins = t1.wins) := by
+  have hwf2 := wfp_sameBut hsb2 hwf
+  have hr2 := rootWin_sameBut hsb2 hr
+  have hpos2 : RootsPositive t2 := by
+    intro x w hx hxr
+    obtain ⟨w', hw', hc⟩ := noVis_some (sameBut_noVis hsb2 x).symm hx
+    simp only [coreNoVis, Prod.mk.injEq] at hc
+    have := hpos x w' hw' (by rw [hc.2.2.2.2]; exact hxr)
+    rw [hc.2.1] at this
+    exact this
+  obtain ⟨hwins, hne', hfl, hcov⟩ := expose_spec _ t2 target _ t' hex (by rw [hroot2]; exact hne) hpos2
+  have hsz : t2.wins.size = t.wins.size := hsb2.size
+  refine ⟨?_, ?_, ?_, hne', ?_, by rw [hwins, hsz], ?_, ⟨t2, hsb2, hwins⟩⟩
+  · refine invC_vis_change content screen t t2 t' id hsb2 (by rw [hroot2]) hwins
+      (fun L C hc => (hcov L C).2 (Or.inl hc)) ?_ hinv
+    intro L C hu _
+    exact (hcov L C).2 (Or.inr (hregion hwf2 hr2 L C hu))
+  · constructor
+    intro cur w hw ch hch
+    rw [hwins] at hw
+    obtain ⟨cw, hcw, hcp, hcr⟩ := hwf2.child cur w hw ch hch
+    exact ⟨cw, by rw [hwins]; exact hcw, hcp, hcr⟩
+  · obtain ⟨w, hw⟩ := hr2.ex
+    exact ⟨⟨w, by rw [hwins]; exact hw⟩⟩
+  · intro x w hx hxr
+    rw [hwins] at hx
+    exact hpos2 x w hx hxr
+  · rcases hfl with rfl | ⟨a, b, c⟩
+    · exact Or.inl hroot2
+    · exact Or.inr ⟨a, b, by rw [c, hroot2]⟩
+
+theorem show_step (content : Id → Int → Int → Cell) (screen : Int → Int → Cell) (t t' : Tree) (id : Id)
+    (h : WinTree.show t (t.wins.size + 1) id = .ok t')
+    (hwf : WFp t) (hr : RootWin t) (hne : ∀ x ∈ t.root.damage, x.Nonempty) (hpos : RootsPositive t)
+    (hinv : InvC content t screen) :
+    InvC content t' screen ∧ WFp t' ∧ RootWin t' ∧ (∀ x ∈ t'.root.damage, x.Nonempty) ∧ RootsPositive t' ∧
+    t'.wins.size = t.wins.size ∧
+    (t'.root = t.root ∨ (t'.root.needsExpose = true ∧ t'.root.needsLater = true ∧ t'.root.changes = t.root.changes)) ∧
+    (∃ t1, SameBut t t1 id ∧ t'.wins = t1.wins) := by
+  unfold WinTree.show at h
+  simp only [WinTree.modify, bind, Bind.bind] at h
+  cases hg : WinTree.get t id with
+  | ub e => rw [hg] at h; cases h
+  | ok w0 =>
+    rw [hg] at h
+    have hw0 := get_ok hg
+    simp only [pure, Pure.pure] at h
+    generalize ht1 : WinTree.set t id { w0 with isVisible := true } = t1 at h
+    have hsb1 : SameBut t t1 id := by
+      rw [← ht1]
+      exact sameBut_set t id id w0 _ hw0.1 (by simp [coreNoVis])
+    have hw1 : t1.wins[id]? = some { w0 with isVisible := true } := by
+      rw [← ht1]; exact set_wins_self t id w0 _ hw0.1
+    have hg1 : WinTree.get t1 id = .ok { w0 with isVisible := true } := by
+      unfold WinTree.get; rw [hw1]; simp [hw0.2]
+    rw [hg1] at h
+    simp only at h
+    have hroot1 : t1.root = t.root := by rw [← ht1]; rfl
+    -- the region of `expose id NULL` in a tree where `id` is visible
+    have region : ∀ (t2 : Tree), (∀ w2, t2.wins[id]? = some w2 → w2.isVisible = true) → WFp t2 → RootWin t2 →
+        t2.wins.size = t.wins.size →
+        ∀ L C, UnderRoot t2 id L C → ExposedRegion t2 (t.wins.size + 1) id none L C := by
+      intro t2 hvis hwf2 hr2 hsz L C hu
+      obtain ⟨idw, l', c', k', h1, h2, h3, h4, h5, h6, h7⟩ := underRoot_ctx t2 hwf2 hr2 id L C hu
+      refine ⟨l' - idw.rect.top, c' - idw.rect.left, ⟨fun r hr' => (by cases hr'), ?_⟩⟩
+      apply exposedAt_mono_le t2 (k := k' + 1) (by omega)
+      have hmm := (memb_true_iff _ _ _).1 h4
+      simp only [ExposedAt]
+      refine ⟨idw, h1, h2, ?_, ?_, ?_, ?_, hvis idw h1, ?_⟩
+      · simp only [Rect.Mem] at hmm; omega
+      · simp only [Rect.Mem, Rect.bottom] at hmm; omega
+      · simp only [Rect.Mem] at hmm; omega
+      · simp only [Rect.Mem, Rect.right] at hmm; omega
+      · cases hp : idw.parent with
+        | none =>
+          rw [hp] at h3 h6
+          simp only [Ctx] at h6
+          have := h7 hp
+          left
+          refine ⟨by simpa using h3, ?_, ?_⟩ <;> omega
+        | some p =>
+          rw [hp] at h3 h6
+          simp only [Ctx] at h6
+          right
+          refine ⟨by simpa using h3, p, rfl, ?_⟩
+          have e1 : l' - idw.rect.top + idw.rect.top = l' := by omega
+          have e2 : c' - idw.rect.left + idw.rect.left = c' := by omega
+          rw [e1, e2]
+          exact h6
+    have hvis1 : ∀ w2, t1.wins[id]? = some w2 → w2.isVisible = true := by
+      intro w2 hw2; rw [hw1] at hw2; cases hw2; rfl
+    cases hp : w0.parent with
+    | none =>
+      simp only [hp] at h
+      exact vis_expose_finish content screen t t1 t' id id none hsb1 hroot1 h hwf hr hne hpos hinv
+        (fun hwf2 hr2 => region t1 hvis1 hwf2 hr2 hsb1.size)
+    | some p =>
+      simp only [hp] at h
+      cases hgp : WinTree.get t1 p with
+      | ub e => rw [hgp] at h; cases h
+      | ok pw =>
+        rw [hgp] at h
+        have hpw := get_ok hgp
+        simp only at h
+        split at h
+        · -- the parent's focused child is set: nothing the composition reads changes
+          have hsb2 : SameBut t1 (WinTree.set t1 p { pw with focusedChild := some id }) id :=
+            sameBut_set t1 id p pw _ hpw.1 (by split <;> simp [core, coreNoVis])
+          have hvis2 : ∀ w2, (WinTree.set t1 p { pw with focusedChild := some id }).wins[id]? = some w2 → w2.isVisible = true := by
+            intro w2 hw2
+            by_cases hpi : p = id
+            · subst hpi
+              rw [set_wins_self t1 p pw _ hpw.1] at hw2
+              cases hw2
+              rw [hw1] at hpw
+              have := hpw.1
+              cases this
+              rfl
+            · rw [set_wins_other t1 p id _ (Ne.symm hpi)] at hw2
+              exact hvis1 w2 hw2
+          exact vis_expose_finish content screen t _ t' id id none (sameBut_trans hsb1 hsb2) (by rw [set_root, hroot1]) h
+            hwf hr hne hpos hinv
+            (fun hwf2 hr2 => region _ hvis2 hwf2 hr2 (by rw [set_size]; exact hsb1.size))
+        · exact vis_expose_finish content screen t t1 t' id id none hsb1 hroot1 h hwf hr hne hpos hinv
+            (fun hwf2 hr2 => region t1 hvis1 hwf2 hr2 hsb1.size)
+
 end WinFlush
 end Tickit
